@@ -518,6 +518,13 @@ Inductive pop :=
 | PAutoSave (b : bool)              (* Store.AutoSaveIndex = b *)
 | PGCCancel (early : bool) (order : list sentry) (k : nat)
 | PPushBad (n : nat)                (* Push of a manifest-typed blob that does not decode *)
+| PDeleteAlt (n : nat)
+  (* Delete of a layer/config with the descriptor Resolve(<digest>) returns for a blob
+     (media type application/octet-stream): the file and every reference to the digest go
+     (storage and references are keyed by digest), the graph - keyed by the full descriptor -
+     does not know that descriptor: no referrers, no danglings, the node stays behind as a
+     stale graph node until GC or a reload.  Theorems that need [wf] do not cover the states
+     after this operation (see C09_persist_histories). *)
 | PGCBlocked (order : list sentry) (k : nat).
   (* GC whose sweep fails at entry [k] of [order] (os.Remove fails: a non-empty directory
      with a digest name): the entries before it were handled, the error is returned *)
@@ -574,6 +581,14 @@ Definition pstep (c : cfg) (kl : bool) (p : pstate) (o : pop) : pstate * res :=
   | PAutoSave b => ({| mem := mem p; disk := disk p; autosave := b |}, Ok)
   (* storage.Push succeeds, graph.Index fails, the blob is removed again: nothing changes *)
   | PPushBad _ => (p, EOther)
+  | PDeleteAlt n =>
+    let m0 := mem p in
+    let ix := filter (fun e => negb (Nat.eqb (snd e) n)) (idx m0) in
+    let m := {| blobs := removeb n (blobs m0); idx := ix; gnodes := gnodes m0;
+                strays := strays m0; autogc := autogc m0 |} in
+    (saved (autosave p && negb (entries_eqb ix (idx m0)) &&
+            (delete_saves_before_unlink || memb n (blobs m0))) p m,
+     if memb n (blobs m0) then Ok else ENotFound)
   | PGCBlocked order k =>
     let '(m, r) := gc_cancel c kl (fun _ => candidates (idx (mem p))) order k (mem p) in
     (saved (autosave p && gc_saves_before_sweep && match r with ECanceled => true | _ => false end) p m,
